@@ -101,6 +101,7 @@ core::marker::PhantomData
             candidates@ =~= Set::<u32>::empty() || leafs.keys().len() >= min_items,
 //@hint before <<<Ok((>>>
         proof {
+            vstd::set_lib::lemma_set_disjoint_lens(selected_items@, candidates@);
             if old(candidates)@.len() > 0 && selected_items@.len() == 0 && min_items >= 1 {
                 assert(candidates@ =~= old(candidates)@);
                 assert(leafs.keys().len() == 0);
